@@ -289,3 +289,41 @@ def expanded_keywords(fnode: ast.AST, call: ast.Call):
         else:
             complete = False
     return out, complete
+
+
+def none_vs_truthiness(project: Project, module_prefix: str):
+    """Contradicting beliefs about an 'unset' marker (Engler et al.): a parameter or `self.<attr>` that is compared with
+    `None` somewhere (so None is what 'not given' looks like) and truth-tested elsewhere (`x or default`, `if not x`) —
+    the truth test also treats 0 / 0.0 / empty as 'not given'. Returns [(key, none_sites, truthy_sites(fi, node))]."""
+    none_tested: Dict[tuple, list] = {}
+    truthy: Dict[tuple, list] = {}
+
+    def key(fi, e):
+        if isinstance(e, ast.Name):
+            return (fi.qualname, e.id) if e.id in fi.params else None
+        if isinstance(e, ast.Attribute) and isinstance(e.value, ast.Name) and e.value.id == "self" and fi.cls is not None:
+            return (fi.cls.qualname, "self." + e.attr)
+        return None
+    for q, fi in sorted(project.functions.items()):
+        if not q.startswith(module_prefix) or not isinstance(fi.node, ast.FunctionDef):
+            continue
+        for n in ast.walk(fi.node):
+            if isinstance(n, ast.Compare) and len(n.ops) == 1 and isinstance(n.ops[0], (ast.Is, ast.IsNot, ast.Eq, ast.NotEq)) \
+                    and isinstance(n.comparators[0], ast.Constant) and n.comparators[0].value is None:
+                k = key(fi, n.left)
+                if k:
+                    none_tested.setdefault(k, []).append((fi, n))
+            tests = []
+            if isinstance(n, (ast.If, ast.While, ast.IfExp)):
+                tests.append(n.test)
+            if isinstance(n, ast.BoolOp):
+                tests += n.values[:-1]
+            if isinstance(n, ast.UnaryOp) and isinstance(n.op, ast.Not):
+                tests.append(n.operand)
+            for t in tests:
+                while isinstance(t, ast.UnaryOp) and isinstance(t.op, ast.Not):
+                    t = t.operand
+                k = key(fi, t)
+                if k:
+                    truthy.setdefault(k, []).append((fi, t))
+    return [(k, none_tested[k], truthy[k]) for k in sorted(set(none_tested) & set(truthy))], len(none_tested)
